@@ -155,7 +155,8 @@ pub fn set_op<K: SimK, V: SimV, const C: usize>(s: &mut Set<K, C>, cx: &mut Cx<K
                     win!(aw, drop(c2));
                     let mut dst: Set<K, C> = Set::new();
                     for i in 0..(*prefill as usize).min(C) {
-                        let k = cx.mk_k(100 + i as u32);
+                        let c = if i < pre.len() && i % 3 != 2 { pre[pre.len() - 1 - i].kclass } else { 100 + i as u32 };
+                        let k = cx.mk_k(c);
                         win!(aw, dst.insert(k));
                     }
                     let src = std::mem::replace(s, dst);
